@@ -2325,8 +2325,8 @@ fn gen_c15(lvl: u8) -> Vec<Scenario> {
         out.push(sc);
     }
     // the acyclic-in-time pattern (A asks B and is answered; B's next message asks A) after a long history of asks
-    // between the two (300, and 70 000 - more than a 16-bit counter holds)
-    for warm in [300u32, 70_000] {
+    // between the two (300, and 66 000 - more than a 16-bit counter holds)
+    for warm in [300u32, 66_000] {
         let mut ids = Ids(0);
         let ping = MsgSpec::quick(ids.next());
         // (B's second message is only sent once the warm-up is over: during it A really is waiting for B)
@@ -2336,8 +2336,8 @@ fn gen_c15(lvl: u8) -> Vec<Scenario> {
         let c0 = Program::new(vec![(0, 0)], vec![send(SendKind::Tell, 0, go)]);
         let c1 = Program::new(vec![(0, 1)], vec![Step::WaitSig(0), send(SendKind::Tell, 0, back)]);
         n += 1;
-        // (an execution with 70 000 asks takes about a second: six schedules of it, the full tree of the short one)
-        let cap = if warm > 1000 { "maxexecs=6" } else { "maxexecs=400" };
+        // (an execution with 66 000 asks takes a second or more: three schedules of it, the full tree of the short one)
+        let cap = if warm > 1000 { "maxexecs=3" } else { "maxexecs=400" };
         let mut sc = scn(format!("c15-{n}-acyclic-after-{warm}-asks"), vec![ActorSpec::plain(3), ActorSpec::plain(3)], vec![c0, c1], &["quiet", "bound=2", cap, "fresh_process"]);
         sc.registry = true;
         out.push(sc);
